@@ -1,10 +1,11 @@
 (* Main.v — request dispatcher of the extracted model binary: one s-expression request per line,
    one s-expression answer per line. Definitions only. *)
-From FV Require Import Base AddrRange RouteMap.
+From FV Require Import Base AddrRange RouteMap Graph.
 
 Definition dispatch (cmd : string) (args : list sx) : res sx :=
   if str_eqb cmd "c17" then handle_c17 args
   else if str_eqb cmd "c16" then handle_c16 args
+  else if str_eqb cmd "c18" then handle_c18 args
   else Err ("unknown command " +++ cmd).
 
 Definition run_line (line : string) : string :=
